@@ -225,7 +225,8 @@ def main(root, repo, tier, replay):
                     transitions += 1
                     cfgj = {"features": ["msg%d" % n], "serde": False}
                     if got is None:
-                        violations.append(("driver-build:msg%d" % n, "driver does not build/run with only msg%d: %s" % (n, "\n".join(out.splitlines()[-8:])), {"kind": "feature_config", "config": cfgj, "step": "driver"}))
+                        errs = [l for l in out.splitlines() if l.startswith("error")]
+                        violations.append(("driver-build:msg%d" % n, "driver does not build/run with only msg%d: %s" % (n, " | ".join(errs[:3]) or "\n".join(out.splitlines()[-4:])), {"kind": "feature_config", "config": cfgj, "step": "driver", "output_tail": "\n".join(out.splitlines()[-25:])}))
                         continue
                     bad = None
                     for label, refv in ref.items():
